@@ -1,16 +1,18 @@
 // C09 bounded stand-in: UnixFS Data / Metadata / timestamp codec vs boxo's gogo unixfs_pb.
 //
 // Bounds (quick | thorough):
-//   grid: 6 data types x 128 presence masks (Data, filesize, blocksizes, hashType, fanout, mode,
-//     mtime) x 7 boundary values {0,1,420/493 (the default modes),2^31,2^32-1,2^63,2^64-1}; each
-//     message marshalled by gogo and decoded here; encoded here and decoded by gogo; canonical
-//     bytes re-encoded; Permissions() before and after a round trip.
-//   presentations: 20000 | 1500000 random messages (VERIF_SEED) written by hand with protowire:
-//     random field order (unpacked block sizes interleaved anywhere), BlockSizes packed as one run,
-//     unknown fields 9..40 of every wire type (varint, fixed64, bytes, group, fixed32) at random
-//     positions, non-minimal varints for values and lengths. gogo decodes the same bytes and is the
-//     reference; the library must decode to the same logical message.
-//   Metadata (MimeType absent / "" / text / unicode, unknown fields) and IPFSTimestamp messages.
+//
+//	grid: 6 data types x 128 presence masks (Data, filesize, blocksizes, hashType, fanout, mode,
+//	  mtime) x 7 boundary values {0,1,420/493 (the default modes),2^31,2^32-1,2^63,2^64-1}; each
+//	  message marshalled by gogo and decoded here; encoded here and decoded by gogo; canonical
+//	  bytes re-encoded; Permissions() before and after a round trip.
+//	presentations: 20000 | 1500000 random messages (VERIF_SEED) written by hand with protowire:
+//	  random field order (unpacked block sizes interleaved anywhere), BlockSizes packed as one run,
+//	  unknown fields 9..40 of every wire type (varint, fixed64, bytes, group, fixed32) at random
+//	  positions, non-minimal varints for values and lengths. gogo decodes the same bytes and is the
+//	  reference; the library must decode to the same logical message.
+//	Metadata (MimeType absent / "" / text / unicode, unknown fields) and IPFSTimestamp messages.
+//
 // Oracle: gogo-generated github.com/ipfs/boxo/ipld/unixfs/pb.
 package c09
 
